@@ -54,10 +54,16 @@ impl LabelResolver {
                     *label_to_address.get(label).unwrap(),
                 )));
             }
-            Instruction::ResumeLabel(AddressOrLabel::Unresolved(label)) => {
-                *instruction = Instruction::ResumeLabel(AddressOrLabel::Resolved(
-                    *label_to_address.get(label).unwrap(),
-                ));
+            Instruction::ResumeLabel(
+                AddressOrLabel::Unresolved(label),
+                for_depth,
+                select_depth,
+            ) => {
+                *instruction = Instruction::ResumeLabel(
+                    AddressOrLabel::Resolved(*label_to_address.get(label).unwrap()),
+                    *for_depth,
+                    *select_depth,
+                );
             }
             _ => {}
         }
